@@ -12,6 +12,17 @@ Fixpoint live_nf (tr : list cevent) (c : nat) : option nat :=
   | _ :: rest => live_nf rest c
   end.
 
+(* the trace is well formed: an Init only when nothing of that class is live, a Teardown / a hand-over
+   only of the instance that is live at that moment *)
+Fixpoint wf_tr (tr : list cevent) : Prop :=
+  match tr with
+  | [] => True
+  | CInit c i :: rest => live_nf rest c = None /\ wf_tr rest
+  | CTeardown c i :: rest => live_nf rest c = Some i /\ wf_tr rest
+  | CYield c i :: rest => live_nf rest c = Some i /\ wf_tr rest
+  | _ :: rest => wf_tr rest
+  end.
+
 (* ---- plumbing ---- *)
 Lemma set_nth_length {A} k (x : A) l : length (set_nth k x l) = length l.
 Proof. revert k; induction l as [|y l IH]; intros [|k]; simpl; auto. Qed.
@@ -37,7 +48,9 @@ Definition truth (s : cstate) : Prop :=
   length (mgrs s) = n /\
   (forall c, c < n -> live_nf (ctr s) c = m_inst (getm s c)) /\
   (forall c, c < n -> alive s c = true -> In c (order s)) /\
-  (forall c h, c < n -> m_hold (getm s c) = Some h -> h_dep h < c).
+  (forall c h, c < n -> m_hold (getm s c) = Some h -> h_dep h < c) /\
+  wf_tr (ctr s) /\
+  (forall c, In c (order s) -> c < n).
 
 (* s' has no live class that s did not have; order and configuration unchanged *)
 Definition shrinks (s s' : cstate) : Prop :=
@@ -68,7 +81,7 @@ Lemma truth_setm_keep s c m :
   truth (setm s c m) /\ shrinks s (setm s c m) /\ (forall c', alive (setm s c m) c' = alive s c') /\
   upper_same c s (setm s c m).
 Proof.
-  intros (TL & T1 & T3 & T4) Hc Hi Hh.
+  intros (TL & T1 & T3 & T4 & T5 & T6) Hc Hi Hh.
   assert (Hc' : c < length (mgrs s)) by (rewrite TL; exact Hc).
   assert (Ha : forall c', alive (setm s c m) c' = alive s c').
   { intros c'. unfold alive. destruct (Nat.eq_dec c c') as [->|Hne].
@@ -76,7 +89,7 @@ Proof.
     - rewrite getm_setm_other by exact Hne. reflexivity. }
   split; [|split; [|split; [exact Ha|]]].
   3:{ intros c' Hlt. apply getm_setm_other. lia. }
-  - unfold truth. split; [simpl; rewrite set_nth_length; exact TL|]. split; [|split].
+  - unfold truth. split; [simpl; rewrite set_nth_length; exact TL|]. split; [|split; [|split; [|split; [exact T5 | exact T6]]]].
     + intros c' Hc2. simpl. destruct (Nat.eq_dec c c') as [->|Hne].
       * rewrite getm_setm_same by exact Hc'. rewrite Hi. apply T1; exact Hc2.
       * rewrite getm_setm_other by exact Hne. apply T1; exact Hc2.
@@ -94,7 +107,7 @@ Lemma truth_kill s c i f s2 :
   let s3 := setm s2 c (mkMgr None (m_users (getm s2 c)) (m_avail (getm s2 c)) None) in
   truth s3 /\ shrinks s s3 /\ alive s3 c = false /\ upper_same c s s3.
 Proof.
-  intros (TL & T1 & T3 & T4) Hc Ei Ec s3.
+  intros (TL & T1 & T3 & T4 & T5 & T6) Hc Ei Ec s3.
   assert (E2 : mgrs s2 = mgrs s /\ order s2 = order s /\ ka s2 = ka s /\ roe_def s2 = roe_def s /\
                opn s2 = opn s /\ ctr s2 = CTeardown c i :: ctr s).
   { unfold cchk, cev in Ec. injection Ec as _ <-. simpl. auto 10. }
@@ -106,7 +119,9 @@ Proof.
   { unfold alive, s3. rewrite getm_setm_same by exact Hc2. reflexivity. }
   split; [|split; [|split; [exact A3|]]].
   3:{ intros c' Hlt. apply G. lia. }
-  - unfold truth. split; [unfold s3; simpl; rewrite set_nth_length, M2; exact TL|]. split; [|split].
+  - unfold truth. split; [unfold s3; simpl; rewrite set_nth_length, M2; exact TL|]. split; [|split; [|split; [|split]]].
+    4:{ unfold s3; simpl. rewrite T2. simpl. split; [rewrite T1 by exact Hc; exact Ei | exact T5]. }
+    4:{ unfold s3; simpl. rewrite O2. exact T6. }
     + intros c' Hc'. unfold s3 at 1. simpl. rewrite T2. simpl.
       destruct (Nat.eqb c c') eqn:Eq.
       * apply Nat.eqb_eq in Eq; subst c'. unfold s3. rewrite getm_setm_same by exact Hc2. reflexivity.
@@ -126,14 +141,14 @@ Qed.
 Lemma teardown_leave_inv : forall d,
   (forall c s r s', teardown d c s = (r, s') -> truth s -> c < n ->
      truth s' /\ shrinks s s' /\ upper_same c s s' /\
-     (alive s c = true -> r <> Some XFuel -> alive s' c = false)) /\
+     (0 < d -> alive s' c = false)) /\
   (forall e pend s r s', leave d e pend s = (r, s') -> truth s -> e_cls e < n ->
      truth s' /\ shrinks s s' /\ upper_same (e_cls e) s s').
 Proof.
   induction d as [|d [IHt IHl]].
   { split.
     - intros c s r s' H. simpl in H. injection H as <- <-. intros T _. split; [exact T|]. split; [apply shrinks_refl|].
-      split; [apply upper_same_refl | congruence].
+      split; [apply upper_same_refl | lia].
     - intros e pend s r s' H. simpl in H. injection H as <- <-. intros T _. split; [exact T|].
       split; [apply shrinks_refl | apply upper_same_refl]. }
   split.
@@ -141,19 +156,19 @@ Proof.
     intros c s r s' H T Hc. cbn [teardown] in H.
     destruct (m_inst (getm s c)) as [i|] eqn:Ei.
     2:{ injection H as <- <-. split; [exact T|]. split; [apply shrinks_refl|]. split; [apply upper_same_refl|].
-        intros Ha. unfold alive in Ha. rewrite Ei in Ha. discriminate. }
+        intros _. unfold alive. rewrite Ei. reflexivity. }
     destruct (cchk (cev (CTeardown c i) s)) as [f s2] eqn:Ec.
     destruct (truth_kill s c i f s2 T Hc Ei Ec) as (T3 & S3 & A3 & U3).
     set (s3 := setm s2 c (mkMgr None (m_users (getm s2 c)) (m_avail (getm s2 c)) None)) in *.
     destruct (m_hold (getm s c)) as [h|] eqn:Eh.
-    + assert (Hd : h_dep h < c) by (destruct T as (_ & _ & _ & T4); eapply T4; eauto).
+    + assert (Hd : h_dep h < c) by (destruct T as (_ & _ & _ & T4 & _ & _); eapply T4; eauto).
       assert (Hd' : h_dep h < n) by lia.
       destruct (IHl _ _ _ _ _ H T3 Hd') as (T' & S' & U').
       split; [exact T'|]. split; [eapply shrinks_trans; eauto|].
       split. { eapply upper_same_trans; [exact U3|]. eapply upper_same_weaken; [|exact U']. simpl. lia. }
-      intros _ _. destruct (alive s' c) eqn:Ea; [|reflexivity].
+      intros _. destruct (alive s' c) eqn:Ea; [|reflexivity].
       destruct S' as (_ & _ & _ & _ & S6). rewrite (S6 c Ea) in A3. discriminate.
-    + injection H as <- <-. split; [exact T3|]. split; [exact S3|]. split; [exact U3|]. intros _ _. exact A3.
+    + injection H as <- <-. split; [exact T3|]. split; [exact S3|]. split; [exact U3|]. intros _. exact A3.
   - (* leave *)
     intros e pend s r s' H T Hc. cbn [leave] in H.
     set (c := e_cls e) in *.
@@ -190,12 +205,464 @@ Qed.
 
 Lemma teardown_inv d c s r s' :
   teardown d c s = (r, s') -> truth s -> c < n ->
-  truth s' /\ shrinks s s' /\ upper_same c s s' /\
-  (alive s c = true -> r <> Some XFuel -> alive s' c = false).
+  truth s' /\ shrinks s s' /\ upper_same c s s' /\ (0 < d -> alive s' c = false).
 Proof. apply (proj1 (teardown_leave_inv d)). Qed.
 
 Lemma leave_inv d e pend s r s' :
   leave d e pend s = (r, s') -> truth s -> e_cls e < n ->
   truth s' /\ shrinks s s' /\ upper_same (e_cls e) s s'.
 Proof. apply (proj2 (teardown_leave_inv d)). Qed.
+
+(* ------------------------------------------------------------------ entering a request *)
+Definition truth_ex (c : nat) (s : cstate) : Prop :=
+  length (mgrs s) = n /\
+  (forall c', c' < n -> live_nf (ctr s) c' = m_inst (getm s c')) /\
+  (forall c', c' < n -> c' <> c -> alive s c' = true -> In c' (order s)) /\
+  (forall c' h, c' < n -> m_hold (getm s c') = Some h -> h_dep h < c') /\
+  wf_tr (ctr s) /\
+  (forall c', In c' (order s) -> c' < n).
+
+Lemma truth_truth_ex c s : truth s -> truth_ex c s.
+Proof. intros (A & B & C & D & E & F). unfold truth_ex. repeat split; auto. Qed.
+
+Lemma truth_ex_dead c s : truth_ex c s -> alive s c = false -> truth s.
+Proof.
+  intros (A & B & C & D & E & F) Hd. unfold truth. repeat split; auto.
+  intros c' Hc' Ha. destruct (Nat.eq_dec c' c) as [->|Hne]; [congruence | auto].
+Qed.
+
+Lemma truth_cchk s f s2 : cchk s = (f, s2) -> truth s ->
+  truth s2 /\ mgrs s2 = mgrs s /\ order s2 = order s /\ ka s2 = ka s /\ roe_def s2 = roe_def s /\
+  opn s2 = opn s /\ ctr s2 = ctr s /\ nxt s2 = nxt s.
+Proof.
+  unfold cchk. intros [= _ <-] (A & B & C & D & E & F). simpl.
+  split; [|repeat split; reflexivity]. unfold truth, alive, getm in *; simpl. repeat split; auto.
+Qed.
+
+(* a machine was just initialised: everything of the invariant holds except that c may not be in the order yet *)
+Lemma truth_birth c hd s2 :
+  truth s2 -> c < n -> alive s2 c = false -> (forall h, hd = Some h -> h_dep h < c) ->
+  let s4 := birth c hd s2 in
+  truth_ex c s4 /\ m_inst (getm s4 c) = Some (nxt s2) /\ m_avail (getm s4 c) = m_avail (getm s2 c) /\
+  order s4 = order s2 /\ ka s4 = ka s2 /\ roe_def s4 = roe_def s2 /\ opn s4 = opn s2 /\ upper_same c s2 s4.
+Proof.
+  intros (TL & T1 & T3 & T4 & T5 & T6) Hc Hd Hh s4.
+  assert (Hc' : c < length (mgrs s2)) by (rewrite TL; exact Hc).
+  unfold s4, birth. set (s3 := cev _ _).
+  assert (G3 : forall c', getm s3 c' = getm s2 c') by reflexivity.
+  assert (Hc3 : c < length (mgrs s3)) by exact Hc'.
+  split; [|split; [|split; [|split; [|split; [|split; [|split]]]]]].
+  - unfold truth_ex. split; [simpl; rewrite set_nth_length; exact TL|]. split; [|split; [|split; [|split]]].
+    5:{ simpl. exact T6. }
+    + intros c' Hc2. simpl. destruct (Nat.eqb c c') eqn:Eq.
+      * apply Nat.eqb_eq in Eq; subst c'. rewrite getm_setm_same by exact Hc3. reflexivity.
+      * apply Nat.eqb_neq in Eq. rewrite getm_setm_other by exact Eq. rewrite G3. apply T1; exact Hc2.
+    + intros c' Hc2 Hne Ha. simpl. unfold alive in Ha. rewrite getm_setm_other in Ha by congruence.
+      rewrite G3 in Ha. apply T3; assumption.
+    + intros c' h Hc2 Hm. destruct (Nat.eq_dec c c') as [->|Hne].
+      * rewrite getm_setm_same in Hm by exact Hc3. simpl in Hm. apply Hh; exact Hm.
+      * rewrite getm_setm_other in Hm by exact Hne. rewrite G3 in Hm. eapply T4; eauto.
+    + simpl. split; [|exact T5]. rewrite T1 by exact Hc. unfold alive in Hd.
+      destruct (m_inst (getm s2 c)); [discriminate | reflexivity].
+  - rewrite getm_setm_same by exact Hc3. reflexivity.
+  - rewrite getm_setm_same by exact Hc3. reflexivity.
+  - reflexivity.
+  - reflexivity.
+  - reflexivity.
+  - reflexivity.
+  - intros c' Hlt. rewrite getm_setm_other by lia. apply G3.
+Qed.
+
+Definition grows (c : nat) (s s' : cstate) : Prop :=
+  (exists l, order s' = order s ++ l) /\ ka s' = ka s /\ roe_def s' = roe_def s /\ opn s' = opn s /\
+  upper_same c s s'.
+
+Lemma grows_refl c s : grows c s s.
+Proof. unfold grows. split; [exists []; rewrite app_nil_r; reflexivity|]. repeat split; auto; try apply upper_same_refl. Qed.
+
+Lemma grows_trans c a b d : grows c a b -> grows c b d -> grows c a d.
+Proof.
+  intros ((l1 & O1) & A2 & A3 & A4 & A5) ((l2 & O2) & B2 & B3 & B4 & B5). unfold grows.
+  split; [exists (l1 ++ l2); rewrite O2, O1, app_assoc; reflexivity|].
+  repeat split; try congruence. eapply upper_same_trans; eauto.
+Qed.
+
+Lemma shrinks_grows c0 c s s' : shrinks s s' -> upper_same c0 s s' -> c0 <= c -> grows c s s'.
+Proof.
+  intros (A1 & A2 & A3 & A4 & _) U Hle. unfold grows.
+  split; [exists []; rewrite app_nil_r; exact A1|]. repeat split; auto. eapply upper_same_weaken; eauto.
+Qed.
+
+Lemma grows_weaken c0 c s s' : grows c0 s s' -> c0 <= c -> grows c s s'.
+Proof. intros (A & B & C & D & E) Hle. unfold grows. repeat split; auto. eapply upper_same_weaken; eauto. Qed.
+
+(* InstanceManager.request + teardown-order bookkeeping *)
+Lemma req_block_inv top c excl roe' x r s' :
+  truth_ex c x -> c < n -> (truth x \/ m_avail (getm x c) = true) ->
+  req_block top c excl roe' x = (r, s') ->
+  truth s' /\ grows c x s' /\
+  match r with
+  | inr en => e_cls en = c /\ m_inst (getm s' c) = Some (e_inst en) /\ In c (order s')
+  | inl _ => True
+  end.
+Proof.
+  intros Tx Hc Hor H. unfold req_block in H.
+  destruct (m_inst (getm x c)) as [i|] eqn:Ei.
+  2:{ injection H as <- <-. split; [|split; [apply grows_refl | exact I]].
+      apply (truth_ex_dead c); [exact Tx|]. unfold alive. rewrite Ei. reflexivity. }
+  destruct (m_avail (getm x c)) eqn:Ea; simpl in H.
+  2:{ injection H as <- <-. split; [|split; [apply grows_refl | exact I]].
+      destruct Hor as [T|X]; [exact T | discriminate]. }
+  destruct Tx as (TL & T1 & T3 & T4 & T5 & T6).
+  assert (Hc' : c < length (mgrs x)) by (rewrite TL; exact Hc).
+  set (m2 := mkMgr (Some i) (S (m_users (getm x c))) (if excl then false else true) (m_hold (getm x c))) in *.
+  set (s2 := setm x c m2) in *.
+  assert (G2 : forall c', c' <> c -> getm s2 c' = getm x c').
+  { intros c' Hne. unfold s2. apply getm_setm_other. congruence. }
+  assert (G2c : getm s2 c = m2) by (unfold s2; apply getm_setm_same; exact Hc').
+  set (s3 := if existsb (Nat.eqb c) (order s2) then s2
+             else mkC (mgrs s2) (ka s2) (roe_def s2) (opn s2) (order s2 ++ [c]) (nxt s2) (cfl s2) (cn s2) (ctr s2)) in *.
+  assert (E3 : mgrs s3 = mgrs s2 /\ ctr s3 = ctr s2 /\ ka s3 = ka x /\ roe_def s3 = roe_def x /\ opn s3 = opn x /\
+               In c (order s3) /\ (exists l, order s3 = order x ++ l) /\ (forall c', In c' (order x) -> In c' (order s3))).
+  { unfold s3. destruct (existsb (Nat.eqb c) (order s2)) eqn:Ex; simpl.
+    - apply existsb_exists in Ex as (c0 & Hin & Heq). apply Nat.eqb_eq in Heq; subst c0.
+      repeat split; auto. exists []. rewrite app_nil_r. reflexivity.
+    - repeat split; auto.
+      + apply in_or_app. right. left. reflexivity.
+      + exists [c]. reflexivity.
+      + intros c' Hin. apply in_or_app. left. exact Hin. }
+  destruct E3 as (M3 & C3 & K3 & R3 & P3 & I3 & (l & O3) & Sub3).
+  assert (Tr3 : truth s3).
+  { unfold truth. split; [rewrite M3; unfold s2; simpl; rewrite set_nth_length; exact TL|].
+    assert (Gm : forall c', getm s3 c' = getm s2 c') by (intros c'; unfold getm; rewrite M3; reflexivity).
+    split; [|split; [|split; [|split]]].
+    5:{ intros c' Hin. rewrite O3 in Hin. unfold s3 in O3.
+        destruct (existsb (Nat.eqb c) (order s2)) eqn:Ex.
+        - rewrite <- O3 in Hin. apply T6. exact Hin.
+        - simpl in O3. apply app_inv_head in O3. subst l.
+          apply in_app_or in Hin as [Hin|[<-|[]]]; [apply T6; exact Hin | exact Hc]. }
+    - intros c' Hc2. rewrite C3, Gm. unfold s2 at 1. simpl.
+      destruct (Nat.eq_dec c' c) as [->|Hne].
+      + rewrite G2c. simpl. rewrite T1 by exact Hc. exact Ei.
+      + rewrite G2 by exact Hne. apply T1; exact Hc2.
+    - intros c' Hc2 Ha. destruct (Nat.eq_dec c' c) as [->|Hne]; [exact I3|].
+      apply Sub3. apply T3; auto. unfold alive in *. rewrite Gm, G2 in Ha by exact Hne. exact Ha.
+    - intros c' h Hc2 Hm. rewrite Gm in Hm. destruct (Nat.eq_dec c' c) as [->|Hne].
+      + rewrite G2c in Hm. simpl in Hm. eapply T4; eauto.
+      + rewrite G2 in Hm by exact Hne. eapply T4; eauto.
+    - rewrite C3. exact T5. }
+  assert (Gr3 : grows c x s3).
+  { unfold grows. split; [exists l; exact O3|]. repeat split; auto.
+    intros c' Hlt. unfold getm. rewrite M3. fold (getm s2 c'). apply G2. lia. }
+  assert (Hi3 : m_inst (getm s3 c) = Some i).
+  { unfold getm. rewrite M3. fold (getm s2 c). rewrite G2c. reflexivity. }
+  destruct top; injection H as <- <-.
+  - (* the hand-over event: the instance is live *)
+    split; [|split].
+    + destruct Tr3 as (A & B & C & D & E & F). unfold truth, alive, getm in *; simpl. repeat split; auto.
+      rewrite B by exact Hc. exact Hi3.
+    + exact Gr3.
+    + simpl. auto.
+  - split; [exact Tr3|]. split; [exact Gr3|]. simpl. auto.
+Qed.
+
+Lemma enter_inv : forall d top c reset excl roe s r s',
+  enter tb d top c reset excl roe s = (r, s') -> truth s -> c < n ->
+  truth s' /\ grows c s s' /\
+  match r with
+  | inr en => e_cls en = c /\ m_inst (getm s' c) = Some (e_inst en) /\ In c (order s')
+  | inl _ => True
+  end.
+Proof.
+  induction d as [|d IH]; intros top c reset excl roe s r s' H T Hc.
+  { simpl in H. injection H as <- <-. split; [exact T|]. split; [apply grows_refl | exact I]. }
+  cbn [enter] in H.
+  destruct (ka s && Nat.eqb (opn s) 0).
+  { injection H as <- <-. split; [exact T|]. split; [apply grows_refl | exact I]. }
+  (* reset *)
+  set (st0 := if alive s c && reset then teardown (S d) c s else (None, s)) in *.
+  assert (H0 : truth (snd st0) /\ grows c s (snd st0) /\ (fst st0 = None -> alive s c && reset = true -> alive (snd st0) c = false)).
+  { unfold st0. destruct (alive s c && reset) eqn:Er.
+    - destruct (teardown (S d) c s) as [r0 s0] eqn:Et.
+      destruct (teardown_inv _ _ _ _ _ Et T Hc) as (A & B & C & D). simpl.
+      split; [exact A|]. split; [eapply shrinks_grows; eauto|].
+      intros _ _. apply D. lia.
+    - simpl. split; [exact T|]. split; [apply grows_refl|]. intros _ X; discriminate. }
+  destruct st0 as [r0 s0]. simpl in H0. destruct H0 as (T0 & G0 & _).
+  destruct r0 as [x|].
+  { injection H as <- <-. split; [exact T0|]. split; [exact G0 | exact I]. }
+  destruct (alive s0 c) eqn:Ea0.
+  { (* already alive: just the request block *)
+    destruct (req_block_inv top c excl _ s0 r s' (truth_truth_ex c s0 T0) Hc (or_introl T0) H) as (A & B & C).
+    split; [exact A|]. split; [eapply grows_trans; eauto | exact C]. }
+  (* InstanceManager.init *)
+  set (sa := setm s0 c (mkMgr (m_inst (getm s0 c)) (m_users (getm s0 c)) true (m_hold (getm s0 c)))) in *.
+  destruct (truth_setm_keep s0 c (mkMgr (m_inst (getm s0 c)) (m_users (getm s0 c)) true (m_hold (getm s0 c)))
+              T0 Hc eq_refl eq_refl) as (Ta & Sa & Aa & Ua). fold sa in Ta, Sa, Aa, Ua.
+  assert (Hca : c < length (mgrs sa)) by (destruct Ta as (TL & _); rewrite TL; exact Hc).
+  assert (Ava : m_avail (getm sa c) = true /\ alive sa c = false).
+  { split; [unfold sa; rewrite getm_setm_same; [reflexivity|] | rewrite Aa; exact Ea0].
+    destruct T0 as (TL & _). rewrite TL. exact Hc. }
+  destruct Ava as (Ava & Ala).
+  assert (Ga : grows c s sa).
+  { eapply grows_trans; [exact G0|]. eapply shrinks_grows; eauto. }
+  (* the prerequisite *)
+  set (stepd := match dep_of tb c with
+                | None => (None, sa, None)
+                | Some (dc, dexcl) =>
+                    match enter tb d false dc false dexcl None sa with
+                    | (inl x, s'0) => (Some x, s'0, None)
+                    | (inr en, s'0) => (None, s'0, Some (mkHold dc (e_excl en) (e_ka en) (e_roe en)))
+                    end
+                end) in *.
+  assert (Hd : truth (snd (fst stepd)) /\ grows c sa (snd (fst stepd)) /\
+               getm (snd (fst stepd)) c = getm sa c /\
+               (forall h, snd stepd = Some h -> h_dep h < c)).
+  { unfold stepd. destruct (dep_of tb c) as [[dc dexcl]|] eqn:Ed.
+    - pose proof (deps_ok _ _ _ Ed) as Hdc.
+      destruct (enter tb d false dc false dexcl None sa) as [rd sd] eqn:Ee.
+      destruct (IH _ _ _ _ _ _ _ _ Ee Ta ltac:(lia)) as (A & B & C).
+      assert (Gc : getm sd c = getm sa c) by (destruct B as (_ & _ & _ & _ & U); apply U; exact Hdc).
+      destruct rd as [x|en]; simpl.
+      + split; [exact A|]. split; [eapply grows_weaken; eauto; lia|]. split; [exact Gc|]. intros h X; discriminate.
+      + split; [exact A|]. split; [eapply grows_weaken; eauto; lia|]. split; [exact Gc|].
+        intros h [= <-]. simpl. exact Hdc.
+    - simpl. split; [exact Ta|]. split; [apply grows_refl|]. split; [reflexivity|]. intros h X; discriminate. }
+  destruct stepd as [[rd sd] hd]. simpl in Hd. destruct Hd as (Td & Gd & Gcd & Hhd).
+  destruct rd as [x|].
+  { injection H as <- <-. split; [exact Td|]. split; [eapply grows_trans; eauto | exact I]. }
+  destruct (cchk sd) as [f s2] eqn:Ec.
+  destruct (truth_cchk _ _ _ Ec Td) as (T2 & M2 & O2 & K2 & R2 & P2 & C2 & N2).
+  assert (G2 : grows c sd s2).
+  { unfold grows. split; [exists []; rewrite app_nil_r; exact O2|]. repeat split; auto.
+    intros c' _. unfold getm. rewrite M2. reflexivity. }
+  assert (Gc2 : getm s2 c = getm sa c) by (unfold getm; rewrite M2; exact Gcd).
+  destruct f.
+  - (* the machine's own init raised: the prerequisite is released again *)
+    destruct hd as [h|].
+    + pose proof (Hhd h eq_refl) as Hdh.
+      destruct (leave (S d) (mkEnt (h_dep h) 0 (h_excl h) (h_ka h) (h_roe h)) (Some (XFault (cn sd))) s2) as [rl sl] eqn:El.
+      destruct (leave_inv _ _ _ _ _ _ El T2 ltac:(simpl; lia)) as (Tl & Sl & Ul). simpl in Ul.
+      assert (E : s' = sl /\ exists x, r = inl x) by (destruct rl; injection H as <- <-; eauto). destruct E as (-> & x & ->).
+      split; [exact Tl|]. split; [|exact I].
+      eapply grows_trans; [exact Ga|]. eapply grows_trans; [exact Gd|]. eapply grows_trans; [exact G2|].
+      eapply shrinks_grows; eauto. lia.
+    + injection H as <- <-. split; [exact T2|]. split; [|exact I].
+      eapply grows_trans; [exact Ga|]. eapply grows_trans; eauto.
+  - (* the machine is up *)
+    assert (Al2 : alive s2 c = false) by (unfold alive; rewrite Gc2; exact Ala).
+    destruct (truth_birth c hd s2 T2 Hc Al2 Hhd) as (Tb & Ib & Avb & Ob & Kb & Rb & Pb & Ub).
+    assert (Avb' : m_avail (getm (birth c hd s2) c) = true) by (rewrite Avb, Gc2; exact Ava).
+    destruct (req_block_inv top c excl _ _ r s' Tb Hc (or_intror Avb') H) as (A & B & C).
+    split; [exact A|]. split; [|exact C].
+    eapply grows_trans; [exact Ga|]. eapply grows_trans; [exact Gd|]. eapply grows_trans; [exact G2|].
+    eapply grows_trans; [|exact B]. unfold grows. split; [exists []; rewrite app_nil_r; exact Ob|]. repeat split; auto.
+Qed.
+
+(* tearing down, in reverse first-request order, whatever `sel` selects *)
+Lemma teardown_all_inv d sel : forall cls pend s r s',
+  teardown_all d sel cls pend s = (r, s') -> truth s -> (forall c, In c cls -> c < n) ->
+  truth s' /\ shrinks s s'.
+Proof.
+  induction cls as [|c rest IH]; intros pend s r s' H T Hin; simpl in H.
+  - injection H as <- <-. split; [exact T | apply shrinks_refl].
+  - destruct (alive s c && sel s c).
+    + destruct (teardown d c s) as [r1 s1] eqn:Et.
+      destruct (teardown_inv _ _ _ _ _ Et T (Hin c (or_introl eq_refl))) as (T1 & S1 & _).
+      assert (Hr : forall p, teardown_all d sel rest p s1 = (r, s') -> truth s' /\ shrinks s s').
+      { intros p Hp. destruct (IH _ _ _ _ Hp T1 (fun c0 H0 => Hin c0 (or_intror H0))) as (A & B).
+        split; [exact A | eapply shrinks_trans; eauto]. }
+      destruct r1; eapply Hr; eauto.
+    + apply (IH _ _ _ _ H T (fun c0 H0 => Hin c0 (or_intror H0))).
+Qed.
+
+(* with sel = everything, nothing of the listed classes survives -- whatever the teardowns raise *)
+Lemma teardown_all_kills d : forall cls pend s r s',
+  0 < d -> teardown_all d (fun _ _ => true) cls pend s = (r, s') -> truth s -> (forall c, In c cls -> c < n) ->
+  forall c, In c cls -> alive s' c = false.
+Proof.
+  induction cls as [|c0 rest IH]; intros pend s r s' Hd H T Hin c Hc; [contradiction|].
+  simpl in H. rewrite andb_true_r in H.
+  assert (G : forall p s1, truth s1 -> alive s1 c0 = false -> teardown_all d (fun _ _ => true) rest p s1 = (r, s') ->
+              alive s' c = false).
+  { intros p s1 T1 A1 Hp. destruct Hc as [<-|Hc].
+    - destruct (teardown_all_inv d _ _ _ _ _ _ Hp T1 (fun c1 H1 => Hin c1 (or_intror H1))) as (_ & (_ & _ & _ & _ & S6)).
+      destruct (alive s' c0) eqn:E; [|reflexivity]. rewrite (S6 _ E) in A1. discriminate.
+    - eapply IH; eauto. intros c1 H1. apply Hin. right. exact H1. }
+  destruct (alive s c0) eqn:Ea.
+  - destruct (teardown d c0 s) as [r1 s1] eqn:Et.
+    destruct (teardown_inv _ _ _ _ _ Et T (Hin c0 (or_introl eq_refl))) as (T1 & S1 & _ & D1).
+    destruct r1; eapply G; eauto.
+  - eapply G; eauto.
+Qed.
+
+(* ------------------------------------------------------------------ whole programs *)
+Fixpoint wfp (p : cprog) : Prop :=
+  match p with
+  | CSkip | CBody _ | CRaise _ => True
+  | CSeq a b => wfp a /\ wfp b
+  | CTry b | CReconf _ _ b | CWithCtx b => wfp b
+  | CRequest c _ _ _ b => c < n /\ wfp b
+  | CTeardownIfAlive c => c < n
+  end.
+
+(* what every program preserves *)
+Definition pres (s s' : cstate) : Prop :=
+  truth s' /\ (exists l, order s' = order s ++ l) /\ ka s' = ka s /\ roe_def s' = roe_def s /\ opn s' = opn s.
+
+Lemma pres_of_grows c s s' : truth s' -> grows c s s' -> pres s s'.
+Proof. intros T (A & B & C & D & _). unfold pres. auto. Qed.
+
+Lemma pres_of_shrinks s s' : truth s' -> shrinks s s' -> pres s s'.
+Proof. intros T (A & B & C & D & _). unfold pres. split; [exact T|]. split; [exists []; rewrite app_nil_r; exact A|]. auto. Qed.
+
+Lemma pres_trans a b c : pres a b -> pres b c -> pres a c.
+Proof.
+  intros (_ & (l1 & O1) & A2 & A3 & A4) (T & (l2 & O2) & B2 & B3 & B4). unfold pres.
+  split; [exact T|]. split; [exists (l1 ++ l2); rewrite O2, O1, app_assoc; reflexivity|]. repeat split; congruence.
+Qed.
+
+Lemma truth_cev e s : (match e with CInit _ _ | CTeardown _ _ | CYield _ _ => False | _ => True end) ->
+  truth s -> truth (cev e s).
+Proof.
+  intros He (A & B & C & D & E & F). unfold truth, alive, getm in *. simpl.
+  destruct e; try contradiction; simpl; repeat split; auto.
+Qed.
+
+Lemma truth_flags s k r : truth s -> truth (set_flags s k r).
+Proof. intros (A & B & C & D & E & F). unfold truth, alive, getm in *. simpl. repeat split; auto. Qed.
+
+Lemma truth_opn s k : truth s -> truth (set_opn s k).
+Proof. intros (A & B & C & D & E & F). unfold truth, alive, getm in *. simpl. repeat split; auto. Qed.
+
+(* every well-formed program preserves the invariant and the configuration, for every fault pattern *)
+Theorem crun_inv : forall d p s r s',
+  wfp p -> crun tb d p s = (r, s') -> truth s -> pres s s'.
+Proof.
+  intros d p. induction p as [|k|a IHa b IHb|sk|body IH|c reset excl roe body IH|nka nroe body IH|c|body IH];
+    intros s r s' Hw H T; simpl in H.
+  - injection H as <- <-. unfold pres. split; [exact T|]. split; [exists []; rewrite app_nil_r; reflexivity|]. auto.
+  - injection H as <- <-. unfold pres. split; [apply truth_cev; [exact I | exact T]|].
+    split; [exists []; rewrite app_nil_r; reflexivity|]. auto.
+  - destruct Hw as [Hwa Hwb]. destruct (crun tb d a s) as [ra sa] eqn:Ea.
+    pose proof (IHa _ _ _ Hwa Ea T) as Pa.
+    destruct ra as [x|].
+    + injection H as <- <-. exact Pa.
+    + pose proof (IHb _ _ _ Hwb H (proj1 Pa)) as Pb. eapply pres_trans; eauto.
+  - injection H as <- <-. unfold pres. split; [exact T|]. split; [exists []; rewrite app_nil_r; reflexivity|]. auto.
+  - destruct (crun tb d body s) as [rb sb] eqn:Eb. injection H as <- <-. eapply IH; eauto.
+  - destruct Hw as [Hc Hwb].
+    destruct (enter tb d true c reset excl roe s) as [re se] eqn:Ee.
+    destruct (enter_inv _ _ _ _ _ _ _ _ _ Ee T Hc) as (Te & Ge & Ce).
+    pose proof (pres_of_grows _ _ _ Te Ge) as Pe.
+    destruct re as [x|en].
+    + injection H as <- <-. exact Pe.
+    + destruct (crun tb d body se) as [rb sb] eqn:Eb.
+      pose proof (IH _ _ _ Hwb Eb Te) as Pb.
+      destruct (leave d en rb sb) as [r3 s3] eqn:El. injection H as <- <-.
+      destruct Ce as (Ec & _).
+      destruct (leave_inv _ _ _ _ _ _ El (proj1 Pb) ltac:(rewrite Ec; exact Hc)) as (Tl & Sl & _).
+      eapply pres_trans; [exact Pe|]. eapply pres_trans; [exact Pb|].
+      pose proof (pres_of_shrinks _ _ Tl Sl) as Pl.
+      destruct Pl as (P1 & P2 & P3 & P4 & P5). unfold pres. simpl.
+      split; [apply truth_cev; [exact I | exact P1]|]. auto.
+  - set (s1 := set_flags s (match nka with Some b => b | None => ka s end)
+                           (match nroe with Some b => b | None => roe_def s end)) in *.
+    destruct (crun tb d body s1) as [rb s2] eqn:Eb.
+    pose proof (IH _ _ _ Hw Eb (truth_flags _ _ _ T)) as (T2 & (l & O2) & K2 & R2 & P2).
+    set (s3 := set_flags s2 (ka s) (roe_def s)) in *.
+    assert (T3 : truth s3) by (apply truth_flags; exact T2).
+    assert (P3 : pres s s3).
+    { unfold pres. split; [exact T3|]. split; [exists l; exact O2|]. simpl. auto. }
+    destruct (negb (ka s) && match nka with Some true => true | _ => false end).
+    + destruct (teardown_all_inv d _ _ _ _ _ _ H T3) as (T4 & S4).
+      { intros c0 Hin. apply in_rev in Hin. destruct T3 as (_ & _ & _ & _ & _ & F). apply F; exact Hin. }
+      eapply pres_trans; [exact P3|]. apply pres_of_shrinks; assumption.
+    + injection H as <- <-. exact P3.
+  - destruct (alive s c).
+    + destruct (teardown_inv _ _ _ _ _ H T Hw) as (T1 & S1 & _). apply pres_of_shrinks; assumption.
+    + injection H as <- <-. unfold pres. split; [exact T|]. split; [exists []; rewrite app_nil_r; reflexivity|]. auto.
+  - set (s1 := set_opn s (S (opn s))) in *.
+    destruct (crun tb d body s1) as [rb s2'] eqn:Eb.
+    pose proof (IH _ _ _ Hw Eb (truth_opn _ _ T)) as (T2' & (l & O2) & K2 & R2 & P2).
+    set (s2 := cev CCtxExit s2') in *.
+    assert (T2 : truth s2) by (apply truth_cev; [exact I | exact T2']).
+    set (st := if Nat.eqb (opn s2') 1 && ka s2' then teardown_all d (fun _ _ => true) (rev (order s2')) rb s2 else (rb, s2)) in *.
+    assert (Hst : truth (snd st) /\ shrinks s2 (snd st)).
+    { unfold st. destruct (Nat.eqb (opn s2') 1 && ka s2').
+      - destruct (teardown_all d (fun _ _ => true) (rev (order s2')) rb s2) as [r4 s4] eqn:Et.
+        apply (teardown_all_inv d _ _ _ _ _ _ Et T2).
+        intros c0 Hin. apply in_rev in Hin. destruct T2 as (_ & _ & _ & _ & _ & F). apply F; exact Hin.
+      - simpl. split; [exact T2 | apply shrinks_refl]. }
+    destruct st as [r3 s3]. simpl in Hst. destruct Hst as (T3 & (S1 & S2 & S3 & S4 & _)).
+    cbv beta iota in H. injection H as <- <-. unfold pres. split; [apply truth_opn; exact T3|]. simpl.
+    split; [exists l; rewrite S1; exact O2|].
+    split; [rewrite S2; exact K2|]. split; [rewrite S3; exact R2|].
+    rewrite S4. simpl. rewrite P2. reflexivity.
+Qed.
+
+(* under keep_alive nothing survives the outermost `with ctx:` -- whatever was requested, whatever raised,
+   including a machine's own teardown *)
+Theorem nothing_alive_after_keepalive_context d body s r s' :
+  0 < d -> wfp body -> truth s -> opn s = 0 -> ka s = true ->
+  crun tb d (CWithCtx body) s = (r, s') ->
+  forall c, c < n -> alive s' c = false.
+Proof.
+  intros Hd Hw T Ho Hk H c Hc. simpl in H.
+  set (s1 := set_opn s (S (opn s))) in *.
+  destruct (crun tb d body s1) as [rb s2'] eqn:Eb.
+  pose proof (crun_inv _ _ _ _ _ Hw Eb (truth_opn _ _ T)) as (T2' & (l & O2) & K2 & R2 & P2).
+  set (s2 := cev CCtxExit s2') in *.
+  assert (T2 : truth s2) by (apply truth_cev; [exact I | exact T2']).
+  assert (E1 : Nat.eqb (opn s2') 1 && ka s2' = true).
+  { rewrite P2, K2. unfold s1; simpl. rewrite Ho, Hk. reflexivity. }
+  rewrite E1 in H.
+  destruct (teardown_all d (fun _ _ => true) (rev (order s2')) rb s2) as [r4 s4] eqn:Et.
+  injection H as _ <-.
+  assert (Hin : forall c0, In c0 (rev (order s2')) -> c0 < n).
+  { intros c0 Hi. apply in_rev in Hi. destruct T2' as (_ & _ & _ & _ & _ & F). apply F; exact Hi. }
+  destruct (teardown_all_inv d _ _ _ _ _ _ Et T2 Hin) as (T4 & (_ & _ & _ & _ & S6)).
+  change (alive (set_opn s4 (Nat.pred (opn s4))) c) with (alive s4 c).
+  destruct (alive s4 c) eqn:Ea; [|reflexivity].
+  (* it was alive before the loop, hence in the order, hence torn down by the loop *)
+  pose proof (S6 _ Ea) as Ea2.
+  assert (Hord : In c (order s2')).
+  { destruct T2 as (_ & _ & I3 & _). exact (I3 c Hc Ea2). }
+  assert (K : alive s4 c = false).
+  { apply (teardown_all_kills d (rev (order s2')) rb s2 r4 s4 Hd Et T2 Hin).
+    apply in_rev. rewrite rev_involutive. exact Hord. }
+  congruence.
+Qed.
+
+Lemma truth0 k r fl : truth (cstate0 n k r fl).
+Proof.
+  unfold truth, cstate0, alive, getm; simpl. split; [apply repeat_length|].
+  assert (G : forall c, nth c (repeat mgr0 n) mgr0 = mgr0).
+  { intros c. destruct (Nat.lt_ge_cases c n) as [H|H]; [apply nth_repeat | apply nth_overflow; rewrite repeat_length; exact H]. }
+  repeat split; auto; intros; try rewrite G in *; simpl in *; try discriminate; try contradiction; auto.
+Qed.
+
 End Inv.
+
+(* ---- closed statements for the 5-class table used by the correspondence check ---- *)
+Definition tb5 : ctable := [None; Some (0, false); Some (1, true); Some (2, true); Some (0, false)].
+
+Lemma tb5_deps_ok : forall c dc de, dep_of tb5 c = Some (dc, de) -> dc < c.
+Proof.
+  intros c dc de H. unfold dep_of, tb5 in H.
+  destruct c as [|[|[|[|[|c]]]]]; simpl in H; try discriminate; try (injection H as <- _; lia).
+  destruct c; discriminate.
+Qed.
+
+(* the recorded finding D14 as a witness: keep_alive, reset_on_error default; Board (1) and Board2 (4) are
+   both built from the lab-host (0); Board2's teardown raises at the outermost exit: the lab-host is torn
+   down (event [2;0;0]) BEFORE the board that was built from it (event [2;1;1]) *)
+Example d14_witness :
+  ctx_model (tb5, (true, true),
+             CWithCtx (CRequest 1 false false None (CRequest 4 false false None CSkip)),
+             [false; false; false; true]) =
+  VL [VL [VL [VN 1; VN 0; VN 0]; VL [VN 1; VN 1; VN 1]; VL [VN 3; VN 1; VN 1]; VL [VN 1; VN 4; VN 2]; VL [VN 3; VN 4; VN 2];
+          VL [VN 5; VN 4]; VL [VN 5; VN 1]; VL [VN 6];
+          VL [VN 2; VN 4; VN 2]; VL [VN 2; VN 0; VN 0]; VL [VN 2; VN 1; VN 1]];
+      VL [VL [VN 3; VN 3]]; VL [VN 0; VN 0; VN 0; VN 0; VN 0]]%Z.
+Proof. vm_compute. reflexivity. Qed.
